@@ -4,10 +4,22 @@ from engine_base import Engine, _sections
 
 def _parse(case):
     f = case.split()
-    if len(f) != 4 or f[0] != "T" or f[2] != "P":
+    if len(f) < 4 or f[0] != "T" or f[2] != "P":
         return None
     es = [] if f[1] == "-" else f[1].split(",")
     return es, f[3]
+
+
+def _extras(case):
+    """the optional `R <hex>` / `L <paths>` part of a case, as (root, links)"""
+    f = case.split()
+    root, links = None, []
+    for i in range(4, len(f) - 1, 2):
+        if f[i] == "R":
+            root = f[i + 1]
+        elif f[i] == "L":
+            links = f[i + 1].split(",")
+    return root, links
 
 
 def _mk(es, pat):
@@ -30,12 +42,25 @@ class Glob(Engine):
         if p is None:
             return []
         es, pat = p
+        root, links = _extras(case)
         out = []
 
-        def emit(es2, pat2):
-            c = _mk(es2, pat2)
+        def emit(es2, pat2, root2=root, links2=links):
+            # a link survives only while its entry (or something below it) is still in the tree
+            have = set()
+            for e in es2:
+                parts = e[2:].split("/")
+                for j in range(1, len(parts) + 1):
+                    have.add("/".join(parts[:j]))
+            ls = [l for l in links2 if l in have]
+            c = _mk(es2, pat2) + ((" R " + root2) if root2 else "") + ((" L " + ",".join(ls)) if ls else "")
             if c != case and c not in out:
                 out.append(c)
+
+        if root:
+            emit(es, pat, root2=None)
+        for i in range(len(links)):
+            emit(es, pat, links2=links[:i] + links[i + 1:])
 
         n = len(es)
         size = max(1, n // 2)
@@ -59,7 +84,7 @@ class Glob(Engine):
 
     def nontrivial_key(self, prop, rec):
         # a case exercises the property when the tree is not empty
-        return rec[0] if " - P " not in rec[0] else None
+        return rec[0] if not rec[0].startswith("T - P ") else None
 
     def histogram(self, prop, rec):
         p = _parse(rec[0])
@@ -91,13 +116,18 @@ class Glob(Engine):
             out.append("pattern:alternation")
         if "?" in pat:
             out.append("pattern:question-mark")
+        root, links = _extras(rec[0])
+        if root:
+            out.append("project-directory:unusual-name")
+        if links:
+            out.append("tree:symbolic-links")
         return out
 
     def rule(self, prop):
         return ("exhaustive (both tiers): every subset of the 10-path pool (top-level and nested files, dot-files and dot-directories at "
                 "both levels, names sorting before and after '.') x 33 patterns, and every subset of an 8-entry pool of kinds (a regular "
                 "file where a pattern expects a directory, empty directories, directories matching file patterns) x the same patterns; "
-                "plus seeded random trees of <= 25 paths with random patterns from the grammar (3*10^3 quick, 2*10^4 thorough); corpus "
+                "plus seeded random trees of <= 25 paths with random patterns from the grammar (3*10^3 quick, 2*10^4 thorough); the fixed tree under 12 unusual project-directory names (glob meta-characters, blanks, backslash, non-ASCII, hidden) and with each entry in turn realised as a symbolic link to a copy outside the project; a quarter of the random cases with such a name, a third with linked entries; corpus "
                 "(D4 witnesses) first. Each case is a real temp tree expanded through parser -> file.New -> SpokFile.ExpandGlobs, three "
                 "times (fresh, fresh, cached). non-trivial = distinct (tree, pattern) with a non-empty tree")
 
@@ -107,7 +137,7 @@ ENGINE = Glob()
 GLOB_MODELLED = [
     "modelled, not verified: doublestar v4 outside the pattern subset (character classes, escapes, nested/empty alternatives, '***', "
     "'.'/'..' segments) and its globAltsWalk (alternations are matched per segment in the model; for patterns with '{' only the set of "
-    "paths is compared, not their order); symlinks; the OS directory listing (os.ReadDir / fs.ReadDir sorted by name over os.DirFS); "
+    "paths is compared, not their order); symbolic links are followed (a linked directory is a directory, a linked file a file: compared on generated trees, link loops not generated); the OS directory listing (os.ReadDir / fs.ReadDir sorted by name over os.DirFS); "
     "filepath.Abs/Join on the results",
 ]
 
